@@ -72,7 +72,8 @@ def gen_plate(rng, used, profile) -> dict:
         flat = [init[1]] * n if init[0] == "S" else (init[1] if init[0] == "V" else init[3])
         for i in range(n):
             if flat[i] > 0 and rng.random() < 0.4:
-                names[wid(i // cols, i % cols)] = rng.choice(["water", "glucose", "X", "buffer", "dye µ"])
+                # an explicit None stands for "no name given": the default name applies
+                names[wid(i // cols, i % cols)] = rng.choice(["water", "glucose", "X", "buffer", "dye µ", None, None])
     return {"kind": "plate", "name": rand_name(rng, used), "rows": rows, "cols": cols, "min": mn, "max": mx,
             "init": init, "names": names}
 
@@ -92,6 +93,14 @@ def gen_trough(rng, used, profile) -> dict:
     flat = [init[1]] * cols if init[0] == "S" else init[1]
     if rng.random() < 0.4:
         col_names = ("V", [(rng.choice(["water", "acid", "base", "X"]) if (flat[c] > 0 and rng.random() < 0.7) else None) for c in range(cols)])
+    if rng.random() < 0.2:
+        # the same trough declared through the generic constructor `Labware(name, 1, cols, virtual_rows=k)` (deprecated
+        # but accepted): it must behave like a `Trough` in every respect, in particular in the device numbering
+        names = {}
+        if col_names is not None:
+            names = {wid(0, c): nm for c, nm in enumerate(col_names[1]) if nm is not None}
+        return {"kind": "plate", "name": rand_name(rng, used), "rows": 1, "cols": cols, "vrows": vrows, "min": mn, "max": mx,
+                "init": ("V", list(flat)), "names": names}
     return {"kind": "trough", "name": rand_name(rng, used), "vrows": vrows, "cols": cols, "min": mn, "max": mx,
             "init": init, "col_names": col_names}
 
@@ -348,6 +357,30 @@ class Builder:
         op["kw"] = self.kw()
         return op
 
+    def op_near_oversize(self):
+        """An aspirate / dispense of a single step just above the worklist's max_volume that the labware itself could
+        take: only the per-step bound can refuse it (InvalidOperationError), whatever the distance to the bound."""
+        rng = self.rng
+        M = self.cfg["max_volume"]
+        d = rng.choice([F(1, 128), M / 2**17, M / 2**15, F(1, 8), F(1, 64)])
+        v = M + d
+        cands = []
+        for li, L in enumerate(self.labs):
+            for w in [str(x) for x in L.wells.flatten()]:
+                cur = self.vol(li, w)
+                if cur - F(L.min_volume) >= v:
+                    cands.append(("aspirate", li, w))
+                if F(L.max_volume) - cur >= v:
+                    cands.append(("dispense", li, w))
+        if not cands:
+            return None
+        k, li, w = rng.choice(cands)
+        op = {"op": k, "lab": li, "wells": ("V", [w]) if rng.random() < 0.7 else ("S", w), "vols": ("V", [v]) if rng.random() < 0.7 else ("S", v),
+              "label": self.label(), "kw": self.kw()}
+        if k == "dispense":
+            op["comps"] = None
+        return op
+
     def transfer_triples(self, si, di, n):
         rng = self.rng
         S, D = self.labs[si], self.labs[di]
@@ -418,7 +451,7 @@ class Builder:
             vols[i] = F(D.max_volume) + rng.choice(STEPS)
         elif fail == "toolarge":
             i = rng.randrange(n)
-            vols[i] = M + rng.choice(STEPS)
+            vols[i] = M + rng.choice(STEPS + [F(1, 128), M / 2**17])     # also just above the limit, absolutely and relatively
         if self.cfg["auto_split"]:
             # DESIGN §3.1: at most a few hundred split steps per volume (a same-well transfer never
             # overflows, so an injected "overflow" volume could otherwise be split 40 000 times)
@@ -549,7 +582,7 @@ class Builder:
             if v > M or v * n > avail - (1 if self.inexact else 0):
                 return None
         elif fail == "toolarge":
-            v = M + rng.choice(STEPS)
+            v = M + rng.choice(STEPS + [F(1, 128), M / 2**17])
         op = {"op": "distribute", "src": si, "src_col": col, "dst": di,
               "dst_wells": ("V", dws) if rng.random() < 0.8 or n > 1 else ("S", dws[0]),
               "vol": PyInt(int(v)) if (v.denominator == 1 and rng.random() < 0.3) else v,
@@ -624,13 +657,35 @@ def gen_worklist_program(rng: random.Random, profile: dict) -> dict:
         k = rng.choice(profile.get("fail_kinds", ["transfer"] * 3 + ["aspirate", "dispense", "distribute", "distribute"]))
         if k == "transfer":
             op = b.op_transfer(fail=rng.choice(["underflow", "overflow", "toolarge", "kw", "wash", "mode", "label", "length", "negative"]))
-        elif k == "aspirate":
-            op = b.op_aspirate(fail=True) if rng.random() < 0.6 else dict(b.op_aspirate(), kw=b.bad_kw())
-        elif k == "dispense":
-            op = b.op_dispense(fail=True) if rng.random() < 0.6 else dict(b.op_dispense(), kw=b.bad_kw())
+        elif k in ("aspirate", "dispense"):
+            mk = b.op_aspirate if k == "aspirate" else b.op_dispense
+            x = rng.random()
+            near = b.op_near_oversize() if x < 0.25 else None
+            if near is not None:
+                op = near
+            elif x < 0.45:
+                op = mk(fail=True)
+            elif x < 0.7:
+                # a single step above the worklist's max_volume (possibly by less than a hundredth): never split, never emitted
+                op = mk()
+                if op["vols"][0] == "V" and op["vols"][1]:
+                    vs = list(op["vols"][1])
+                    vs[rng.randrange(len(vs))] = b.cfg["max_volume"] + rng.choice(STEPS + [F(1, 128), b.cfg["max_volume"] / 2**17])
+                    op["vols"] = ("V", vs)
+                elif op["vols"][0] == "S":
+                    op["vols"] = ("S", b.cfg["max_volume"] + rng.choice(STEPS + [F(1, 128), b.cfg["max_volume"] / 2**17]))
+            else:
+                op = dict(mk(), kw=b.bad_kw())
         else:
             op = b.op_distribute(fail=rng.choice(["underflow", "overflow", "toolarge", "direction", "rack", "lc"]))
         b.push(op)
+        # optionally the script catches the exception and goes on with the same labware and worklist
+        lo, hi = profile.get("after_fail", (0, 0))
+        for _ in range(rng.randint(lo, hi)):
+            k = rng.choice([x for x in kinds if x != "drain_refill"])
+            op = {"transfer": b.op_transfer, "aspirate": b.op_aspirate, "dispense": b.op_dispense, "distribute": b.op_distribute,
+                  "misc": b.op_misc, "add": b.op_add, "remove": b.op_remove}[k]()
+            b.push(op)
     return b.program()
 
 
